@@ -34,15 +34,17 @@ Theorem C07_next_node_is_first_after :
     next_visit cpos d None = match after cpos (preorder d) with n :: _ => Some (n_pos n, n_end n) | [] => None end.
 Proof. intros cpos d H. apply (next_visit_first_after_b cpos d H). Qed.
 
-(* (4) inline: "there is code on the comment's line before it" - some node of the enclosing declaration starts before
-   the comment and ends on the comment's line; then the scope is that physical line up to the end of the comment *)
+(* (4) inline: "there is code on the comment's line before it" - some node of the enclosing declaration begins before
+   the comment and starts or ends on the comment's line (a line that only opens a block starts a node and ends none);
+   then the scope is that physical line up to the end of the comment *)
 Theorem C07_inline_sound :
   forall f cpos cline d, has_code_on_line f cpos cline d = true ->
-    exists x, In x (preorder d) /\ n_pos x < cpos /\ line_of f (n_end x) = cline.
+    exists x, In x (preorder d) /\ n_pos x < cpos /\ (line_of f (n_pos x) = cline \/ line_of f (n_end x) = cline).
 Proof. exact has_code_on_line_sound. Qed.
 Theorem C07_inline_complete :
   forall f cpos cline d, parent_le_b d = true ->
-    (exists x, In x (preorder d) /\ n_pos x < cpos /\ line_of f (n_end x) = cline) -> has_code_on_line f cpos cline d = true.
+    (exists x, In x (preorder d) /\ n_pos x < cpos /\ (line_of f (n_pos x) = cline \/ line_of f (n_end x) = cline)) ->
+    has_code_on_line f cpos cline d = true.
 Proof. exact has_code_on_line_complete. Qed.
 
 (* (5) matching: one more scoped @ignore with codes C and range [s,e] suppresses (c,p) iff s <= p <= e and C holds
